@@ -295,8 +295,24 @@ Definition loud (fk : fkind) (k : fault) : bool :=
   (* the selected data path of an entity / batch entity fetch holds an explicit null, a value of the
      wrong kind or nothing (`_entities`: null / {} / "x", `data`: {} / "x" / 1 / []), with or without
      an errors entry, at status 200 or 500: never the benign "no entity found" (isEmptyEntityFetch
-     needs a real list).  For a root fetch `data: {..}` is an ordinary answer; `data` of the wrong kind
-     and `_entities` items of the wrong kind make MergeValues fail (c07_wrong_kind_aborts_refuted). *)
-  | FtShape _ _ _ => match fk with FSingle => false | _ => true end
+     needs a real list).  For a root fetch `data: {..}` is an ordinary answer. *)
+  | FtShape sh _ _ => match fk with
+                      | FSingle => match sh with ShDataStr | ShDataNum | ShDataArr => true | _ => false end
+                      | _ => true
+                      end
+  (* `_entities` of the right length with items of a wrong kind; above: `data` itself a string / number / list on a root
+     fetch.  Since eb6ed70 (mergeableData) reported like the other invalid shapes -- when MergePath is empty ([fault_fits]) *)
+  | FtItems _ _ _ => match fk with FSingle => false | _ => true end
   | _ => false
   end.
+
+(* the kinds whose report rests on mergeableData, which the loader consults only for an empty MergePath *)
+Definition plain_merge_kind (k : fault) : bool :=
+  match k with
+  | FtItems _ _ _ => true
+  | FtShape (ShDataStr | ShDataNum | ShDataArr) _ _ => true
+  | _ => false
+  end.
+Definition fault_fits (F : N -> option fault) (f : fetch) : bool :=
+  match F (f_id f) with Some k => negb (plain_merge_kind k) || mp_empty f | None => true end.
+Definition fetch_wfF (kind_of : N -> fkind) (F : N -> option fault) (f : fetch) : bool := fetch_wf kind_of f && fault_fits F f.
